@@ -18,7 +18,7 @@ func main() {
 	mc.Main(mc.Spec{
 		ID: "C09", Level: "exploration",
 		Units: func(tier string) []mc.Unit { return certworld.UnitsOf(certworld.FamiliesC09(tier)) },
-		Batch: func(string) int { return 150 },
+		Batch: certworld.BatchSize,
 		Run: func(c *mc.Ctx, u mc.Unit) {
 			certworld.Run(c, u, certworld.OptionsC09(c.Tier), certworld.OracleC09)
 		},
